@@ -43,10 +43,10 @@ _NOTE = ("Trusted: Lean kernel; axioms propext/Classical.choice/Quot.sound only 
 PROPS = {
     "C09": {
         "lean": ["FH.Props.C09"],
-        "engines": ["rule", "hist", "pe", "row", "scn"],
-        "level_text": "Theorems: rule execution on both architectures has no reachable panic for all parameters/registers/readers; checked_add_signed equals the mathematical definition. The model is tied to the code by executing every generated case on both; every case is also run on the implementation under catch_unwind with overflow checks on.",
+        "engines": ["rule", "hist", "pe", "row", "scn", "macho"],
+        "level_text": "Theorems: (1) whole call - for every unwinder (arbitrary DWARF rows, PE tables, text bytes, ranges; Mach-O opcode fields in the range of their Rust types), every rule cache holding in-range rules (preserved by every call, true of the empty cache), every address, register file and stack reader, unwind_frame has a panic outcome only where the PE operation interpreter has one (pe-unwind-info's resolve_operation, third-party, known finding F8-dep), and on aarch64 never; this rests on: every rule the miss path can produce (DWARF translation, compact-unwind opcodes, instruction analysis on arbitrary bytes, PE compression, fallbacks) has fields in the ranges for which (2) rule execution is panic free for all registers/readers, and the generic DWARF path has no panic outcome; (3) checked_add_signed equals the mathematical definition. The model is tied to the code by executing every generated case on both; every case is also run on the implementation under catch_unwind with overflow checks on.",
         "level_note": _NOTE,
-        "statement": "No model function has a reachable panic outcome: rule execution (both architectures, all parameter values of the Rust field types, all registers, all stack readers), checked_add_signed, the pointer-auth mask constructor. Every model function is total in Lean (structural recursion).",
+        "statement": "No reachable panic outcome in a whole unwind_frame call outside the third-party PE operation interpreter: rule execution (both architectures, all parameter values of the Rust field types, all registers, all stack readers), all rule producers, the generic DWARF path, checked_add_signed, the pointer-auth mask constructor. Every model function is total in Lean.",
     },
     "C10": {
         "lean": ["FH.Props.C10"],
